@@ -25,7 +25,7 @@ var cidrRe = regexp.MustCompile(`(?m)^\s*([0-9a-fA-F:.]+/\d+)\b`)
 // docLists parses the documented networks of the two functions.
 func docLists(t *testing.T) (ls, sp []netip.Prefix) {
 	fs := token.NewFileSet()
-	f, err := parser.ParseFile(fs, "/repo/netutil/subnetset.go", nil, parser.ParseComments)
+	f, err := parser.ParseFile(fs, mon.Repo()+"/netutil/subnetset.go", nil, parser.ParseComments)
 	if err != nil {
 		t.Fatalf("harness: %v", err)
 	}
